@@ -267,7 +267,8 @@ func c03Exec(x *engine.Ctx, cc any) {
 		}
 		if c.Role > 0 {
 			cfg.Issuer = "ca"
-			d.Certs = append([]*refcfg.CertCfg{{Path: "ca.yaml", Subject: "CN=ids CA", KeyAlg: "P-224"}}, d.Certs...)
+			// the issuer carries unique ids of its own: they are the issuer's, not the subject's
+			d.Certs = append([]*refcfg.CertCfg{{Path: "ca.yaml", Subject: "CN=ids CA", KeyAlg: "P-224", SubjectUID: refcfg.Bin([]byte{0xca, 0xfe}), IssuerUID: refcfg.Bin([]byte{0xbe}), Serial: refcfg.I64(77)}}, d.Certs...)
 		}
 		g := Generate(d, func(w *simfs.World) {
 			if c.Role == 2 {
